@@ -66,3 +66,10 @@ def bits_controls(ctx):
     v = Bits(fx, {param("i"): sym_bits('i', 32, 8)}, e.phi_ops).ev(r.ret)
     res["lut_loop(no unroll)"] = v == spread_bits(sym_bits('i', 32, 8), 64, 0)
     ctx.control("bounded-unrolling-on-fixtures", res == {"zoc::lut_unrolled": True, "zoc::lut_loop": True, "zoc::lut_loop_bad": False, "lut_loop(no unroll)": False}, "got %s" % res)
+
+
+def cancellation_controls(ctx):
+    from rules import cancellation
+    fx = ctx.fixtures()
+    res = {fn: bool(cancellation.scan_function(fx, fn)) for fn in ("shs_half_angle", "shs_one_minus_cos", "polar_radius_half_angle", "polar_radius_one_minus_sin")}
+    ctx.control("cancellation-lint-on-fixtures", res == {"shs_half_angle": False, "shs_one_minus_cos": True, "polar_radius_half_angle": False, "polar_radius_one_minus_sin": True}, "got %s" % res)
